@@ -1319,6 +1319,9 @@ class LiteralValue:
 
     def __init__(self, value):
         self.value = value
+        # As in `Type.__init__`: attributes assigned to this value are its own
+        # (the class-level dict is shared by every literal of every analysis)
+        self.fields = self.fields.copy()
 
     def promote(self):
         return self.parents[0]
